@@ -537,6 +537,8 @@ def run(ctx):
     core.pmap(mg, _chunk, items, nchunks=len(items))
     ctx.extra["items"] = len(items)
     ctx.extra["max_err_over_tol"] = {k: float("%.3g" % v) for k, v in sorted(mg.stats.items())}
+    ctx.extra["violation_keys"] = sorted(k for k, _, _ in ctx.violations)
+    ctx.extra["known_finding_keys"] = sorted(k for k, _ in ctx.known_hits)
     ctx.rule = ("%d work items: transform = models x functions {kinematics, com_pos, crb+factor, fwd_position, forward, step} x lattice "
                 "states, comparing jit / vmap / jit(vmap) with eager per-sample (eager on a sub-lattice, jit-per-sample elsewhere); "
                 "transfer = models x lattice states x {get_data, get_data_into} over every field both sides define + contacts + batched; "
